@@ -39,7 +39,7 @@ GROUP_PROPS = {
     'status': {'C03'},
     'ids': {'C05'},
     'wire': {'C06'},
-    'ctx': {'C07'},
+    'ctx': {'C07', 'C10'},      # caller cancellation (C07) and connection end (C10) both act through handler contexts
     'fault': {'C09'},
     'serve': {'C10'},
     'reg': {'C14'},
